@@ -1734,7 +1734,9 @@ def clock_value_rules(rep, m):
                     o.ok('stamp-field::' + fname, fx, 'the %s field is %s (%s)' % (fname, txt, ', '.join(sorted(cal))))
                 else:
                     o.unk('stamp-field::' + fname, fx, 'calendar source of the %s field not recognised' % fname)
-        seps = [x.value for x in ast.walk(asg) if isinstance(x, ast.Constant) and isinstance(x.value, str)]
+        # the literal text between the fields (the format specifications of an f-string are constants too: not separators)
+        spec_consts = set(id(c_) for fv_ in ast.walk(asg) if isinstance(fv_, ast.FormattedValue) and fv_.format_spec is not None for c_ in ast.walk(fv_.format_spec))
+        seps = [x.value for x in ast.walk(asg) if isinstance(x, ast.Constant) and isinstance(x.value, str) and id(x) not in spec_consts]
         if seps == [':', ':']:
             o.ok('stamp-separators', rets[0], 'fields joined by colons')
         elif seps:
